@@ -423,7 +423,7 @@ def check(rep: Report, tier: str, seed: int) -> None:
     real_pulser_contract(rep, rng, 6 if tier == "quick" else 60)
     sv_family(rep, rng, 16 if tier == "quick" else 300)
 
-    if rep.broken and not rep.failing:
+    if rep.broken and not rep.unknown_failing():
         search(rep, seed, 400 if tier == "quick" else 5000)
 
 
